@@ -783,9 +783,12 @@ func keysetSection(x *h.X) {
 			sel = append(sel, i)
 		}
 	default:
-		k := 3
-		if th && n == 2 {
-			k = 9
+		k := 2
+		if th {
+			k = 3
+			if n == 2 {
+				k = 9
+			}
 		}
 		base := (u1*7 + idx[1]*13 + prim*5 + int(st[0])*3 + int(st[n-1])) % len(ios)
 		for j := 0; j < k; j++ {
